@@ -109,13 +109,14 @@ def fam_combine(rng, fn):
         if rng.random() < 0.2:
             pure = True
             # literals with the same text between the quotes but another meaning (raw / plain, either order, inside a tuple)
-            pair = rng.choice([['"\\n"', 'r"\\n"'], ['"\\t"', 'r"\\t"'], ['"\\\\"', 'r"\\\\"']])
+            pair = rng.choice([['"\\n"', 'r"\\n"'], ['"\\t"', 'r"\\t"'], ['"\\x41b"', 'r"\\x41b"']])   # neither value is a prefix / suffix of the other
             rng.shuffle(pair)
             a1, a2 = pair
             # the receiver matches one of the two literals only
             lit = rng.choice(pair)
             r = f"{lit} + ' tail'" if fn == "startswith" else f"'head ' + {lit}"
             if rng.random() < 0.3: a2 = f"({a2}, 'zz')"
+            r += "   # must"
         shape = rng.choice(["{A} or {B}", "{A} or {B} or {C}", "({A} or {B}) and {F}", "{A} or {B} and {F}", "{F} and ({A} or {B})", "{A} or ({B} or {C})",
                             "not ({A} or {B})", "{A} or {B} if {F} else {C}", "{A} or {O}", "{F} and {A} or {B}", "not ({F} or {A} or {B})", "not ({A} or {B} or {F})"])
         if pure:   # shapes outside the recorded regrouping finding, so that a difference is the literals' doing
@@ -520,7 +521,9 @@ def search(ctx):
         progs = list(dict.fromkeys(progs))
         if not ctx.thorough:
             rng.shuffle(progs)
-            progs = progs[:18]
+            # programs built to tell one specific mistake apart take part in every run
+            must = [p for p in progs if "# must" in p][:5]
+            progs = must + [p for p in progs if p not in must][: 18 - len(must)]
         good = []
         for p in progs:
             try:
